@@ -42,7 +42,11 @@ COMPONENTS = {
 
 
 def gen(rng, tier):
-    transport = rng.choices(["popen", "bare", "socket", "proxy"], [45, 12, 18, 25])[0]
+    return gen_profile(rng, tier)
+
+
+def gen_profile(rng, tier, senders=(1, 2), big_p=0.25, transports=(45, 12, 18, 25)):
+    transport = rng.choices(["popen", "bare", "socket", "proxy"], list(transports))[0]
     backend = rng.choice(["thread", "thread", "main_thread_only", "gevent"])
     nch = rng.choice([1, 1, 2, 3])
     if backend == "main_thread_only":
@@ -51,7 +55,7 @@ def gen(rng, tier):
     knobs = L.gen_knobs(rng, small_ok=transport in ("popen",))
     if transport in ("bare", "proxy", "socket") and knobs["pipe_cap"] < 4096:
         knobs["pipe_cap"] = 4096
-    big = rng.random() < 0.25
+    big = rng.random() < big_p
     if big and knobs["pipe_cap"] < 4096:
         knobs["pipe_cap"] = 4096
     if big and knobs["sock_cap"] < 4096:
@@ -61,8 +65,8 @@ def gen(rng, tier):
     spawned = []
     for ci in range(nch):
         label = f"c{ci}"
-        ni = rng.randrange(0, 7)
-        nw = rng.randrange(0, 7)
+        ni = rng.randrange(0, 7) if senders == (1, 2) else rng.randrange(2, 9)
+        nw = rng.randrange(0, 7) if senders == (1, 2) else rng.randrange(2, 9)
         # ---- worker body actor
         waid = len(actors)
         wact = {"side": "w", "gw": gwi, "chan": label, "ops": []}
@@ -70,11 +74,15 @@ def gen(rng, tier):
         main.append(["exec", label, waid, gwi])
         # split items among senders
         def split(n, side, first_aid, mk_second):
-            if n >= 2 and rng.random() < 0.4:
-                cut = rng.randrange(1, n)
-                second = mk_second()
-                return [(first_aid, cut), (second, n - cut)]
-            return [(first_aid, n)]
+            parts = [(first_aid, n)]
+            want = rng.randrange(senders[0], senders[1] + 1)
+            if senders == (1, 2):
+                want = 2 if (n >= 2 and rng.random() < 0.4) else 1
+            while len(parts) < want and parts[0][1] >= 2:
+                cut = rng.randrange(1, parts[0][1])
+                parts[0] = (first_aid, parts[0][1] - cut)
+                parts.append((mk_second(), cut))
+            return parts
         # initiator senders
         isend_aid = len(actors)
         actors.append({"side": "i", "gw": gwi, "chan": label, "ops": []})
